@@ -55,7 +55,7 @@ def gen_base(rng, n, subst=None, site=None, rooting=None, reversible=False):
     if dt == "nucleotide":
         seqs = G.random_alignment(rng, names, nsites, G.NUC18, "ACGT", lower=True, special=rng.random() < 0.6)
     elif dt == "aa":
-        seqs = G.random_alignment(rng, names, nsites, G.AA_ALL, G.AA20, p_amb=0.15)
+        seqs = G.random_alignment(rng, names, nsites, G.AA_ALL, G.AA20, p_amb=0.3, lower=True)
     else:
         seqs = G.random_codon_alignment(rng, names, nsites)
     base = {"datatype": dt, "rooting": rooting, "subst": G.gen_subst(rng, subst), "site": G.gen_site(rng, site),
@@ -326,7 +326,7 @@ def variants(run: Runner, rng, tree, names, seqs, base, bucket, exhaustive):
         run.pair("swap-children", ref, G.materialise(G.swap_nodes(tree, sub), taxa0, seq0, seqs, base), bucket,
                  (kid, tuple(sorted(sub))), lean_b=rng.random() < 0.3)
     # --- column order, duplicated columns
-    size = G.DATATYPES[base["datatype"]]["size"]
+    size = G.dt_of(base)["size"]
     L = min(len(s) for s in seqs.values()) // size
     for _ in range(2):
         perm = list(range(L))
